@@ -584,7 +584,7 @@ func (x *Exec) unop(st *State, i *ssa.UnOp) {
 		v := x.Load(st, p, i.Type())
 		// values read from memory are well-formed
 		if _, isAddr := p.(*Addr); !isAddr || p.(*Addr).Kind != aLocal {
-			st.Assume(x.D.WF(v, i.Type(), st.top, 2))
+			st.Assume(x.D.WF(v, i.Type(), x.loadTop(st, p, i.Type()), 2))
 		}
 		// function values loaded back: resolve closures by handle
 		fr.vals[i] = v
